@@ -5,12 +5,13 @@
      keyword glyphs  bu 不  wei 为  da 大  yu 于  deng 等  ru 如  guo 果  he 何  jie 结  shu 束  xun 循
                      huan 环  de 的  zhu 注     (all of them are also ordinary identifier characters)
      L  an ordinary letter (CJK / Latin / kana / hangul)     D  a digit
-     "+" "-" "*" "/"    sp  space    bt  back-tick    col ：    dot .    eq =    lq “    rq ”
+     "+" "-" "*" "/"    "%" remainder sign    sp  space    bt  back-tick    col ：    dot .    eq =    lq “    rq ”
    Documented priority:  comment > text literal > back-ticked identifier > punctuation > operator >
    keyword > identifier.  Keywords are cut out greedily from left to right wherever their characters
    occur (declaratively: at a position the LONGEST entry of the keyword table that is a prefix of the
    rest wins), the remaining runs are identifiers; text between back-ticks is one identifier with no
-   keyword extraction; + - * / are operators only when followed by a space, punctuation or quote.
+   keyword extraction; + - * / are operators only when followed by a space, punctuation or quote; % at the start of a
+   token is always the remainder operator, after the first character of a name it is part of the name (like . * /).
 
    The scanner is a state machine: one action per token kind; every action consumes >= 1 character. *)
 EXTENDS Integers, Sequences, FiniteSets, TLC, Json
@@ -19,7 +20,7 @@ CONSTANTS MaxLen, Alphabet
 
 Glyphs == {"bu", "wei", "da", "yu", "deng", "ru", "guo", "he", "jie", "shu", "xun", "huan", "de", "zhu"}
 IdStart == Glyphs \cup {"L", "D", "+", "-"}            \* characters of the identifier table
-IdCont == IdStart \cup {"dot", "*", "/"}               \* may continue an identifier ( . * / )
+IdCont == IdStart \cup {"dot", "*", "/", "%"}          \* may continue an identifier ( . * / % )
 Quotes == {"lq", "rq"}
 Puncts == {"col"}
 \* the keyword table (the entries spellable in this alphabet)
@@ -97,7 +98,7 @@ ScanPunct == /\ ~IsComment /\ At(p) \in Puncts /\ Emit1("punct", p, p + 1) /\ UN
 
 (* ---- operators ---- *)
 OpFollow(c) == c \in {"sp"} \cup Puncts \cup Quotes
-IsOp == \/ At(p) = "eq"
+IsOp == \/ At(p) = "eq" \/ At(p) = "%"
         \/ (At(p) = "/" /\ At(p + 1) = "eq")
         \/ (At(p) \in {"+", "-", "*", "/"} /\ OpFollow(At(p + 1)))
 ScanOp == /\ ~IsComment /\ IsOp
